@@ -71,7 +71,7 @@ class RecordingCache(MemoryCache):
         return super().get(evaluatable, options)
 
     def set(self, evaluatable, options, value):
-        rt.call("backend", self.name + ".set")
+        rt.call("backend", self.name + ".set", v=value)
         return super().set(evaluatable, options, value)
 
     def exists(self, evaluatable, options):
